@@ -360,7 +360,7 @@ def check_to(c):
 PARAM_FAULTS = ["both_bounds", "ratio_range", "bad_costs", "constraint_weight", "selection_rule",
                 "non_moment_gs", "non_moment_eg"]
 PARITY = ["DemographicParity", "TruePositiveRateParity", "FalsePositiveRateParity", "EqualizedOdds", "ErrorRateParity"]
-BAD_COSTS = [{"fp": -1.0, "fn": 1.0}, {"fp": 1.0, "fn": -0.5}, {"fp": 0.0, "fn": 0.0}, {"fp": 1.0},
+BAD_COSTS = [{"fp": float("nan"), "fn": 1.0}, {"fp": 1.0, "fn": float("nan")}, {"fp": -1.0, "fn": 1.0}, {"fp": 1.0, "fn": -0.5}, {"fp": 0.0, "fn": 0.0}, {"fp": 1.0},
              {"fn": 2.0}, {"fp": 1.0, "fn": 1.0, "tp": 0.0}, {}, [1.0, 1.0], "costs"]
 GOOD_COSTS = [{"fp": 1.0, "fn": 2.0}, {"fp": 0.0, "fn": 1.0}, {"fp": 0.5, "fn": 0.0}]
 
@@ -377,7 +377,7 @@ def check_params(c):
         _expect_ok(lambda: cls(ratio_bound=r, ratio_bound_slack=d), "ratio_bound only")
         _expect_raise(lambda: cls(difference_bound=d, ratio_bound=r), f"{cls.__name__}(difference_bound={d}, ratio_bound={r})")
     elif fault == "ratio_range":
-        bad = [0.0, -0.5, 1.5, 1.0000001, -1e-9, 2, 100.0][c["b"] % 7]
+        bad = [0.0, -0.5, 1.5, 1.0000001, -1e-9, 2, 100.0, float("nan"), float("inf")][c["b"] % 9]
         _expect_ok(lambda: cls(ratio_bound=r), "valid ratio")
         _expect_ok(lambda: cls(ratio_bound=1.0), "ratio 1")
         _expect_raise(lambda: cls(ratio_bound=bad, ratio_bound_slack=d), f"{cls.__name__}(ratio_bound={bad})")
@@ -387,7 +387,7 @@ def check_params(c):
         _expect_ok(lambda: fr.ErrorRate(), "default costs")
         _expect_raise(lambda: fr.ErrorRate(costs=bad), f"ErrorRate(costs={bad!r})")
     elif fault == "constraint_weight":
-        bad = [-0.1, 1.1, -1e-9, 1.0000001, 2, -5.0][c["b"] % 6]
+        bad = [-0.1, 1.1, -1e-9, 1.0000001, 2, -5.0, float("nan"), float("inf")][c["b"] % 8]
         _expect_ok(lambda: fr.GridSearch(ExactTable(), cls(), constraint_weight=c["cw"]), "valid constraint_weight")
         _expect_raise(lambda: fr.GridSearch(ExactTable(), cls(), constraint_weight=bad), f"GridSearch(constraint_weight={bad})")
     elif fault == "selection_rule":
